@@ -55,6 +55,8 @@ declare_class(
     "FoundFragment",
     fields={"fragment": FRAG, "scaffolds": TList(TRef("OverlapResult"))},
 )
+# a text file opened for writing: the ghost list of chunks passed to write(), in order
+declare_class("TextOut", fields={"g_out": TList(STR)})
 declare_class("AssemblyStats", fields={"cuts": INT, "breaks": INT, "joins": INT})
 declare_class(
     "BuildAssembly",
